@@ -9,7 +9,7 @@ hooks = subprocess.run(["git", "-C", "/repo", "log", "--format=%h %s", "--grep=^
 checks, na = [], []
 for p in props:
     i = p["id"]
-    if i in conf and not conf[i].get("unclaimed"):
+    if i in conf and conf[i].get("ready") and not conf[i].get("unclaimed"):
         c = conf[i]
         checks.append(dict(
             property_id=i,
